@@ -322,6 +322,7 @@ type nodeH struct {
 	// the honest remote H was the client's sync peer at some quiescent
 	// point since the last chain event
 	honestWasSyncPeer bool
+	burst             *verifbubble.Burst // scheduler deviations inside a step (nil: none)
 	// the first false filter header seen in the store, and whether an
 	// honest remote had answered the request it came from by then
 	poisoned      string
@@ -1146,11 +1147,18 @@ type nodeMode struct {
 	long       bool // the 2005-block tree (filter checkpoints at 1000 and 2000)
 	converge   bool // convergence on the honest chain is demanded
 	subs       bool // virtual block subscribers replay the events (C19)
+	delays     bool // every step may carry one scheduler deviation (delay-bounded scheduling inside the burst)
+	// only the step in which Stop is called may carry one
+	delaysAtStopOnly bool
 }
 
 var nodeModes = map[string]nodeMode{
 	"C04": {name: "C04", behaviours: []string{"honest", "silent", "invalid-header", "lighter-fork", "false-cfheaders",
 		"false-prev-header", "garbage", "drops-on-cf", "bad-block", "drops-after-handshake", "garbage-after-verack"}, converge: true},
+	// the same with the order inside a burst as a further dimension: one
+	// delay of a runnable goroutine at every scheduling decision in turn
+	"C04D": {name: "C04", behaviours: []string{"honest", "silent", "invalid-header", "lighter-fork", "false-cfheaders",
+		"garbage", "drops-on-cf", "drops-after-handshake", "garbage-after-verack"}, converge: true, delays: true},
 	"C13": {name: "C13", behaviours: []string{"no-cf-service", "no-witness", "bad-block", "bad-witness", "slow-handshake", "false-cfheaders", "false-prev-header"}, calls: true},
 	"C17": {name: "C17", behaviours: []string{"honest", "silent", "false-cfheaders", "drops-on-cf"}, stops: true, calls: true},
 	"C15": {name: "C15", behaviours: []string{"honest"}, noEarly: true},
@@ -1318,8 +1326,12 @@ func nodeRun(c *verifeng.Chooser, f *nodeFix, env *verifhfs.Env, mode nodeMode, 
 	steps := 0
 	stopNow := false
 	lastProgress := ""
+	if mode.delays {
+		h.burst = verifbubble.NewBurst(c)
+	}
 	for !c.Failed() {
 		verifbubble.Wait()
+		h.burst.End()
 		if h.safety() {
 			return
 		}
@@ -1406,8 +1418,16 @@ func nodeRun(c *verifeng.Chooser, f *nodeFix, env *verifhfs.Env, mode nodeMode, 
 					sig += ":false-filter-header-committed-" + h.poisoned
 					why += "; " + h.poisonedNote
 				} else if _, bt, err := h.cs.BlockHeaders.ChainTip(); err == nil && int32(bt) < h.honestTip().Height && !h.honestWasSyncPeer {
-					sig += ":honest-peer-never-chosen-as-sync-peer"
-					why += "; in these 300 s the honest remote was never the sync peer"
+					if sp := h.cs.blockManager.SyncPeer(); sp != nil && !sp.Connected() {
+						// not the known finding (connected peers that stall
+						// and come back): the block manager holds on to a
+						// peer that is gone
+						sig += ":sync-peer-is-gone-and-was-not-replaced"
+						why += fmt.Sprintf("; the block manager's sync peer %s is not connected any more", sp.Addr())
+					} else {
+						sig += ":honest-peer-never-chosen-as-sync-peer"
+						why += "; in these 300 s the honest remote was never the sync peer"
+					}
 				}
 				c.Fail("C04", sig, "%d virtual seconds after the last event, with the honest peer answering everything: %s", idle, why)
 				return
@@ -1464,6 +1484,9 @@ func nodeRun(c *verifeng.Chooser, f *nodeFix, env *verifhfs.Env, mode nodeMode, 
 		}
 		k := c.ChooseCosts(costs, "step")
 		a := menu[k]
+		if a.run != nil && !mode.delaysAtStopOnly {
+			a.name += h.burst.Begin()
+		}
 		c.Step("%s", a.name)
 		if a.run != nil {
 			a.run()
@@ -1472,6 +1495,7 @@ func nodeRun(c *verifeng.Chooser, f *nodeFix, env *verifhfs.Env, mode nodeMode, 
 			break
 		}
 	}
+	h.burst.Off()
 	if c.Failed() {
 		return
 	}
@@ -2156,6 +2180,13 @@ func runNode(t *testing.T, harness, modeName string) {
 			cfgs = []nodeCfg{{2, 1}, {1, 2}}
 		}
 	}
+	if modeName == "C04D" {
+		// one deviation: a stimulus out of turn or one scheduler delay
+		cfgs = []nodeCfg{{1, 1}}
+		if tier == "thorough" {
+			cfgs = []nodeCfg{{1, 1}, {1, 2}}
+		}
+	}
 	if modeName == "C17" {
 		// Stop is one of the deviations
 		cfgs = []nodeCfg{{1, 1}}
@@ -2198,6 +2229,7 @@ func runNode(t *testing.T, harness, modeName string) {
 }
 
 func TestVFXC04(t *testing.T)  { runNode(t, "C04-node", "C04") }
+func TestVFXC04D(t *testing.T) { runNode(t, "C04-node-delays", "C04D") }
 func TestVFXC13N(t *testing.T) { runNode(t, "C13-node", "C13") }
 func TestVFXC17(t *testing.T)  { runNode(t, "C17-node", "C17") }
 func TestVFXC15N(t *testing.T) { runNode(t, "C15-node", "C15") }
